@@ -293,6 +293,18 @@ def str_method(I, recv, name, argexprs, scope, frame, g, hint, e):
         return slen(recv)
     if name == "lines":
         return lines(recv)
+    if name in ("chars", "char_indices"):
+        # one item per character = per byte that is not a UTF-8 continuation byte (the value is the lead byte: only counting and
+        # positions are meaningful in this profile)
+        arr, lo, hi = as_str(recv).base()
+        n = sub(hi, lo)
+        mx = max(cases_of(n)) if not isinstance(n, int) else n
+        items = []
+        for k in range(mx):
+            b = byte_abs(arr, add(lo, k))
+            g_ = c.and2(int_lt(k, n), -is_cont(b) if b is not UNDEF else F)
+            items.append((g_, (k, b) if name == "char_indices" else b))
+        return IterV(items)
     if name == "split":
         p = arg()
         if not isinstance(p, int):
